@@ -60,6 +60,7 @@ var Mutants = map[string][]Mutant{
 		{"Paths.Settle ignores its rule", "path_intersection.go", `return bentleyOttmann\(ps, nil, opSettle, fillRule\)`, `return bentleyOttmann(ps, nil, opSettle, NonZero)`, "E9.wrapper"},
 	},
 	"C03": {
+		{"non-circular arcs flattened with the package default tolerance", "path_util.go", `arcToCube\(start, rx, ry, phi, large, sweep, end\)\.Flatten\(tolerance\)`, "arcToCube(start, rx, ry, phi, large, sweep, end).Flatten(Tolerance)", "E11.tolerance-threaded"},
 		{"control-point factor of the maximal piece angle", "path_util.go", `(?s)(func ellipseToCubicBeziers\(.*?\tdtheta := math\.Pi / 2\.0 // TODO[^\n]*\n\tn := int\(math\.Ceil\(math\.Abs\(theta1-theta0\) / dtheta\)\)\n)(\tdtheta = math\.Abs\(theta1-theta0\) / float64\(n\)[^\n]*\n)(\tkappa := [^\n]*\n)`, "${1}${3}${2}", "E11.factor-from-step"},
 		{"quadratic control-point factor of the maximal piece angle", "path_util.go", `(?s)(func ellipseToQuadraticBeziers\(.*?\tn := int\(math\.Ceil\(math\.Abs\(theta1-theta0\) / dtheta\)\)\n)(\tdtheta = math\.Abs\(theta1-theta0\) / float64\(n\)[^\n]*\n)(\tkappa := math\.Tan\(dtheta / 2\.0\)\n)`, "${1}${3}${2}", "E11.factor-from-step"},
 		{"second root re-mapped whenever the roots are ordered", "path_util.go", `(?s)\tsplit := false\n(.*?)\t\tsplit = true\n(.*?)\t\tif split \{\n\t\t\tt2 = \(t2 - t1\)`, "${1}${2}\t\tif t1 < t2 {\n\t\t\tt2 = (t2 - t1)", "E11.remap-iff-split"},
@@ -74,6 +75,9 @@ var Mutants = map[string][]Mutant{
 		{"ToPDF forgets ReplaceArcs", "path.go", `\tp = p\.ReplaceArcs\(\)\n\n\tsb := strings\.Builder\{\}\n\tvar x, y float64\n\tfor i := 0; i < len\(p\.d\); \{\n\t\tcmd := p\.d\[i\]\n\t\tswitch cmd \{\n\t\tcase MoveToCmd:\n\t\t\tx, y = p\.d\[i\+1\], p\.d\[i\+2\]\n\t\t\tfmt\.Fprintf\(&sb, " %v %v m"`, "\tsb := strings.Builder{}\n\tvar x, y float64\n\tfor i := 0; i < len(p.d); {\n\t\tcmd := p.d[i]\n\t\tswitch cmd {\n\t\tcase MoveToCmd:\n\t\t\tx, y = p.d[i+1], p.d[i+2]\n\t\t\tfmt.Fprintf(&sb, \" %v %v m\"", "E10.consumer"},
 	},
 	"C04": {
+		{"last x-monotone arc piece ends at a recomputed position (reverts fix efe7f4b)", "path_util.go", `(?s)\t\tpos := end // [^\n]*\n\t\tif !angleEqual\(t, theta1\) \{\n\t\t\tpos = EllipsePos\(rx, ry, phi, cx, cy, t\)\n\t\t\}\n`, "\t\tpos := EllipsePos(rx, ry, phi, cx, cy, t)\n", "E11.split-keeps-endpoint"},
+		{"radius change of an arc declared before the segment loop", "path_stroke.go", `(?s)(\tfor i, cur := range states \{\n)(.*?)\t\t\tdr := halfWidth\n`, "\tdr := halfWidth\n$1$2", "E11.sign-flip-per-iteration"},
+		{"non-circular arcs flattened with the package default tolerance", "path_util.go", `arcToCube\(start, rx, ry, phi, large, sweep, end\)\.Flatten\(tolerance\)`, "arcToCube(start, rx, ry, phi, large, sweep, end).Flatten(Tolerance)", "E11.tolerance-threaded"},
 		{"inner curve of a clockwise stroke settled non-zero", "path_stroke.go", `q = q\.Append\(rhs\.Settle\(Negative\)\.Reverse\(\)\)`, "q = q.Append(rhs.Settle(NonZero).Reverse())", "E11.stroke-settle-rule"},
 		{"miter limit compared with the signed miter length", "path_stroke.go", `limit\*halfWidth < math\.Abs\(d\)`, "limit*halfWidth < d", "E11.signed-magnitude"},
 		{"join test compares the end normals of both segments", "path_stroke.go", `if !cur\.n1\.Equals\(next\.n0\) \{`, "if !cur.n1.Equals(next.n1) {", "E11.junction-pairing"},
@@ -86,6 +90,7 @@ var Mutants = map[string][]Mutant{
 		{"closed flag also set by MoveTo", "path_stroke.go", `\t\tcase MoveToCmd:\n\t\t\tend = Point\{p\.d\[i\+1\], p\.d\[i\+2\]\}\n\t\tcase LineToCmd:\n\t\t\tend = Point\{p\.d\[i\+1\], p\.d\[i\+2\]\}\n\t\t\tn := end`, "\t\tcase MoveToCmd:\n\t\t\tend = Point{p.d[i+1], p.d[i+2]}\n\t\t\tclosed = false\n\t\tcase LineToCmd:\n\t\t\tend = Point{p.d[i+1], p.d[i+2]}\n\t\t\tn := end", "E11.cap-join"},
 	},
 	"C05": {
+		{"negative offset wrapped as Mod(offset+sum, sum)", "path.go", `offset = math\.Mod\(offset, dTotal\) \+ dTotal`, "offset = math.Mod(offset+dTotal, dTotal)", "E11.dash-offset-range"},
 		{"ScaleDash multiplies the caller's pattern in place", "canvas.go", `(?s)\td2 := make\(\[\]float64, len\(d\)\)\n\tfor i := range d \{\n\t\td2\[i\] = d\[i\] \* scale\n\t\}\n\treturn offset \* scale, d2\n`, "\tfor i := range d {\n\t\td[i] *= scale\n\t}\n\treturn offset * scale, d\n", "E1.dash-input-pure"},
 		{"line case claims [T, T+dT) while the curves claim (T, T+dT]", "path.go", `(?s)(dT := end\.Sub\(start\)\.Length\(\)\n\t\t\t\t\tTcurve := T\n\t\t\t\t\t)for j < len\(ts\) && T < ts\[j\] && ts\[j\] <= T\+dT \{`, "${1}for j < len(ts) && T <= ts[j] && ts[j] < T+dT {", "E11.cut-interval"},
 		{"quad cut loop carries the relative parameter", "path.go", `(?s)(\t\t\t\t\tr0, r1, r2 := start, cp, end\n.*?)\t\t\t\t\t\tt := invL\(ts\[j\] - T\)\n\t\t\t\t\t\ttsub := \(t - t0\) / \(1\.0 - t0\)\n\t\t\t\t\t\tt0 = t\n`, "${1}\t\t\t\t\t\ttsub := (invL(ts[j]-T) - t0) / (1.0 - t0)\n\t\t\t\t\t\tt0 = tsub\n", "E11.cut-carried"},
@@ -100,6 +105,7 @@ var Mutants = map[string][]Mutant{
 		{"arc cut relative to the arc start", "path.go", `ellipseSplit\(rx, ry, phi, cx, cy, startTheta, theta2, theta\)`, `ellipseSplit(rx, ry, phi, cx, cy, theta1, theta2, theta)`, "E11.cut-carried"},
 	},
 	"C06": {
+		{"pending end-point hit of Crossings declared outside the sub-path loop", "path.go", `(?s)(\tboundary := false\n)(\tfor _, pi := range p\.Split\(\) \{\n\t\t// Count intersections of ray with path, see windings\n\t\tni := 0\n)\t\tvar prev \*Intersection\n`, "$1\tvar prev *Intersection\n$2", "E9.pending-per-subpath"},
 		{"quad tangency recognised for the parallel direction only", "path_intersection_util.go", `zs = zs\.add\(pos, s, root, dira, dirb, endpoint \|\| Equal\(A\.Dot\(deriv\), 0\.0\), false\)`, "zs = zs.add(pos, s, root, dira, dirb, endpoint || angleEqual(dira, deriv.Angle()), false)", "E9.tangent-both-ways"},
 		{"CCW takes the arriving curvature without reversing it", "path.go", `curvPrev := -p\.curvature\(kPrev, 1\.0\)`, "curvPrev := p.curvature(kPrev, 1.0)", "E11.reversed-frame"},
 		{"intersection parameters snapped by exact comparison only", "path_intersection_util.go", `\} else if 1\.0 < tb \|\| Equal\(tb, 1\.0\) \{`, "} else if 1.0 < tb {", "E9.endpoint-snap"},
@@ -169,6 +175,7 @@ var Mutants = map[string][]Mutant{
 		{"Close retags one end only", "path.go", `\t\tp\.d\[len\(p\.d\)-1\] = CloseCmd\n\t\tp\.d\[len\(p\.d\)-cmdLen\(LineToCmd\)\] = CloseCmd\n`, "\t\tp.d[len(p.d)-1] = CloseCmd\n", "E2.retag"},
 	},
 	"C11": {
+		{"Join hands the stored rotation (radians) to ArcTo (degrees)", "path.go", `p\.ArcTo\(d\[1\], d\[2\], d\[3\]\*180\.0/math\.Pi, large, sweep, d\[5\], d\[6\]\)`, "p.ArcTo(d[1], d[2], d[3], large, sweep, d[5], d[6])", "E8.units"},
 		{"ToSVG drops a MoveTo to the current pen position", "path.go", `(?s)(func \(p \*Path\) ToSVG\(\) string \{.*?\t\tcase MoveToCmd:\n)`, "${1}\t\t\tif 0 < i && Equal(x, p.d[i+1]) && Equal(y, p.d[i+2]) {\n\t\t\t\tbreak\n\t\t\t}\n", "E2.serialise-every-command"},
 		{"implicit lineto after m read as absolute", "path.go", `(?s)(p1 = p1\.Add\(p0\)\n\t\t\t\t)cmd = 'l'`, "${1}cmd = 'L'", "E11.implicit-command"},
 		{"sub-path start remembered before the relative offset", "path.go", `(?s)(\tvar p0, p1) (Point\n\tprevCmd := byte\('z'\).*?\t\t\tp1 = Point\{f\[0\], f\[1\]\}\n)(\t\t\tif cmd == 'm' \{.*?)\t\t\tp1 = p\.StartPos\(\)\n`, "${1}, start ${2}\t\t\tstart = p1\n${3}\t\t\tp1 = start\n", "E11.relative-before-use"},
@@ -210,6 +217,8 @@ var Mutants = map[string][]Mutant{
 		{"PS eofill outside its guard", "renderers/ps/ps.go", `r\.w\.Write\(\[\]byte\(" fill"\)\)\n\t\t\}\n\t\tif style\.HasStroke\(\) && !strokeUnsupported \{\n\t\t\tr\.w\.Write\(\[\]byte\(" grestore"\)\)`, "r.w.Write([]byte(\" eofill\"))\n\t\t}\n\t\tif style.HasStroke() && !strokeUnsupported {\n\t\t\tr.w.Write([]byte(\" grestore\"))", "E6.enum"},
 	},
 	"C13": {
+		{"name escaping forgets the number sign", "renderers/pdf/writer.go", ` \|\| c == '#' \|\| strings\.IndexByte`, " || strings.IndexByte", "E5.name-escape"},
+		{"names written raw (reverts fix eb66fee)", "renderers/pdf/writer.go", `w\.write\("/%v", pdfEscapeName\(string\(v\)\)\)`, "w.write(\"/%v\", v)", "E5.name-escape"},
 		{"short Flate streams written raw", "renderers/pdf/writer.go", `(\t\t\tcase pdfFilterFlate:\n)`, "${1}\t\t\t\tif len(b) < 16 {\n\t\t\t\t\tbreak\n\t\t\t\t}\n", "E5.filter-applied"},
 		{"metadata written raw up to Latin-1", "renderers/pdf/writer.go", `if 0x80 <= r \{\n\t\t\t\tascii = false`, "if 0xFF < r {\n\t\t\t\tascii = false", "E5.text-string-encoding"},
 		{"negative dash phase made positive by a possibly zero step", "renderers/pdf/writer.go", `\t\tif 0\.0 < totalLength \{\n\t\t\tfor dashPhase < 0\.0 \{\n\t\t\t\tdashPhase \+= totalLength\n\t\t\t\}\n\t\t\} else \{\n[^\n]*\n\t\t\}\n`, "\t\tfor dashPhase < 0.0 {\n\t\t\tdashPhase += totalLength\n\t\t}\n", "E4.additive-loop"},
@@ -271,6 +280,7 @@ var Mutants = map[string][]Mutant{
 		{"setter writes the stack", "canvas.go", `func \(c \*Context\) SetStrokeWidth\(width float64\) \{\n`, "func (c *Context) SetStrokeWidth(width float64) {\n\tc.stack = nil\n", "E11.ctx-setter"},
 	},
 	"C16": {
+		{"indent dropped from the items when the text starts with white space", "text/linebreak.go", `(?s)\titems = append\(items, Box\(indent\)\)\n\tif padStart\.Size != 0 \{\n\t\titems\[0\]\.Width \+= padStart\.Width\n\t\titems\[0\]\.Size \+= padStart\.Size\n\t\titems = append\(items, Penalty\(0, 0, false\)\)\n\t\}`, "\tif padStart.Size != 0 {\n\t\titems = append(items, padStart, Penalty(0, 0, false))\n\t} else {\n\t\titems = append(items, Box(indent))\n\t}", "E11.indent-on-every-path"},
 		{"lines aligned by the break width including trailing spaces", "text.go", `x \+= width - \(breaks\[j\]\.Width - eolWidth\)`, "x += width - breaks[j].Width", "E11.aligned-width-excludes-eol"},
 		{"trailing white space stretched like the rest of the line", "text.go", `if 0\.0 < width && i != bi \{`, "if 0.0 < width {", "E11.aligned-width-excludes-eol"},
 		{"line heights skip spans whose face is not larger", "text.go", `(?s)(\tif mode == HorizontalTB \{\n)(\t\tfor _, span := range l\.spans \{\n\t\t\tif span\.IsText\(\) \{\n)`, "${1}\t\tsize := 0.0\n${2}\t\t\t\tif span.Face.Size <= size {\n\t\t\t\t\tcontinue\n\t\t\t\t}\n\t\t\t\tsize = span.Face.Size\n", "E3.line-heights-every-span"},
